@@ -640,6 +640,24 @@ impl Device {
         }
     }
 
+    /// A remembered folder log (fsnap) stands for "the copy another replica
+    /// holds". It stays a valid force-merge source only while nothing that
+    /// lives outside the folder log changed: keys (password / cipher), the
+    /// clear-text attributes kept twice (name, flags, description) and the
+    /// account-wide placement of secret ids (moves).
+    pub fn invalidate_fsnaps(&mut self, opn: &str, s: &Value, class: &str) {
+        if class.starts_with("skip") {
+            return;
+        }
+        match opn {
+            "move" | "archive" | "unarchive" | "chcipher" | "chpw_account" | "raw_create" | "fdelete" | "compact_account" => self.fsnaps.clear(),
+            "frename" | "fflags" | "fdesc" | "chpw_folder" => {
+                self.fsnaps.remove(&ju64(s, "fslot"));
+            }
+            _ => {}
+        }
+    }
+
     fn folder_of_slot(&self, fslot: u64) -> Option<VaultId> {
         self.model.fslots.get(&fslot).copied()
     }
